@@ -532,6 +532,7 @@ def maprewrite(ctx, E, crate):
 def run(ctx):
     crate = ctx.facts("A").lib
     E = Effects(crate)
+    mapparse(ctx)
     maprewrite(ctx, E, crate)
     fa, ok_b, err_b, map_calls, stores = mapall(ctx, E, crate)
     maplen(ctx, E, crate, fa, ok_b, map_calls)
@@ -556,3 +557,150 @@ def run_user(ctx):
     crate = ctx.facts("A").lib
     E = Effects(crate)
     mapkeep_user(ctx, E, crate)
+
+
+def mapparse(ctx):
+    """MAPPARSE (C06): `Mappings that mention id 0, repeat or omit an id are rejected`.
+    ConnIdMapper::parse builds the inverse table; structurally:
+      (i)   an input id equal to the BOS/EOS id takes an edge that reaches Err only;
+      (ii)  the slot of an id is written only after a comparison of the slot with the `unassigned`
+            sentinel the table was filled with, whose `already assigned` edge reaches Err only
+            (repeated ids);
+      (iii) the slot is obtained by a checked lookup whose miss reaches Err only (ids outside
+            1..=n; together with (ii) and the equal lengths this excludes omissions)."""
+    from flow import result_exits, bool_switch_targets
+    from sym import Sym, show
+    crate = ctx.facts("A").lib
+    E = Effects(crate)
+    p = "vibrato::dictionary::mapper::ConnIdMapper::parse"
+    f = crate.fns.get(p)
+    if f is None or not f.body:
+        raise EngineError("MAPPARSE: anchor lost: %s" % p)
+    fa = E.fa(p)
+    S = Sym(E, fa)
+    loc = fn_loc(crate, p)
+    ok_b, err_b, _ = result_exits(fa)
+
+    def err_only(b):
+        return not (fa.reachable(b) & ok_b)
+    # sentinel of the table
+    sentinel = None
+    table_b = None
+    for b, t in calls_named(fa, "from_elem"):
+        k = op_const(t["args"][0])
+        if k is not None and "int" in k:
+            sentinel, table_b = k["int"], b
+    if sentinel is None:
+        raise EngineError("MAPPARSE: the inverse table (vec![sentinel; n]) was not found")
+    zero = dup = miss = False
+    for b in sorted(fa.live_blocks()):
+        t = fa.term(b)
+        if t["k"] != "switch":
+            continue
+        o = fa.origin(t["op"])
+        if o[0] == "rv" and o[1]["k"] == "binop" and o[1]["op"] in ("Eq", "Ne"):
+            ca, cb = op_const(o[1]["a"]), op_const(o[1]["b"])
+            k = cb if cb is not None else ca
+            other = o[1]["a"] if cb is not None else o[1]["b"]
+            if k is None or "int" not in k:
+                continue
+            f_t, t_t = bool_switch_targets(t)
+            eq_t = t_t if o[1]["op"] == "Eq" else f_t
+            ne_t = f_t if o[1]["op"] == "Eq" else t_t
+            oty = fa.fn.locals[op_place(other)["l"]]["ty"] if op_place(other) else ""
+            if k["int"] == 0 and oty == "u16" and err_only(eq_t):
+                zero = True
+            if k["int"] == sentinel and err_only(ne_t):
+                # the slot's value compared with the sentinel: `assigned` edge -> Err
+                dup = True
+        if o[0] == "rv" and o[1]["k"] == "discr":
+            # Option from get_mut: None -> Err
+            src = fa.origin({"c": o[1]["place"]})
+            if src[0] == "call" and {strip_generics(x).rsplit("::", 1)[-1] for x in callee_paths(src[2])} & {"get_mut", "get"}:
+                arms = dict(zip(t["vals"], t["targets"]))
+                none_t = arms.get(0, t["otherwise"])
+                if err_only(none_t):
+                    miss = True
+    ctx.ob("MAPPARSE", "%s|id-0-rejected" % p, zero, loc,
+           "an input id equal to the BOS/EOS id 0 leads to Err" if zero else
+           "ConnIdMapper::parse no longer rejects the reserved id 0: a mapping may move the BOS/EOS "
+           "id")
+    ctx.ob("MAPPARSE", "%s|repeated-id-rejected" % p, dup, loc,
+           "a slot that is already assigned (not the sentinel %d) leads to Err" % sentinel if dup else
+           "ConnIdMapper::parse writes a slot without testing that it is still unassigned: a "
+           "repeated id overwrites the earlier one and another id is left unmapped (sentinel "
+           "%d stays in the table and is later used as an index)" % sentinel)
+    ctx.ob("MAPPARSE", "%s|out-of-range-id-rejected" % p, miss, loc,
+           "the slot is looked up with a checked get whose miss leads to Err" if miss else
+           "ConnIdMapper::parse no longer rejects ids outside 1..=n with an error")
+
+
+def verifystrict(ctx):
+    """VERIFYSTRICT (C10, C08, C06): Lexicon::verify and UnkHandler::verify reject exactly the ids
+    that are not smaller than the connector's count of their side: every comparison between
+    `num_left()/num_right()` and an id is, as a normalised linear inequality on the edge that
+    returns false, `count - id <= 0`. (`count < id` accepts id == count, the first id outside the
+    connector; the side pairing itself is KIND-CMP's business.)"""
+    from flow import bool_switch_targets
+    from sym import Sym, show
+    from r_cand import _lin
+    crate = ctx.facts("A").lib
+    E = Effects(crate)
+    n = 0
+    for p, f in sorted(crate.fns.items()):
+        if not f.body or f.krate != "vibrato" or not strip_generics(p).endswith("::verify"):
+            continue
+        fa = E.fa(p)
+        S = Sym(E, fa)
+        # blocks that make the function return false
+        false_blocks = set()
+        for b, i, s in fa.stmts():
+            if "lhs" in s and s["lhs"]["l"] == 0 and not s["lhs"]["p"] and s["rv"]["k"] == "use":
+                k = op_const(s["rv"]["op"])
+                if k is not None and k.get("int") == 0:
+                    false_blocks.add(b)
+        k_ = 0
+        for b in sorted(fa.live_blocks()):
+            t = fa.term(b)
+            if t["k"] != "switch":
+                continue
+            e = S.operand(t["op"])
+            if not (e[0] == "binop" and e[1] in ("Lt", "Le", "Gt", "Ge")):
+                continue
+            (lt, lc), (rt, rc) = _lin(e[2]), _lin(e[3])
+            if "num_left(" in lt or "num_right(" in lt:
+                cnt_left = True
+            elif "num_left(" in rt or "num_right(" in rt:
+                cnt_left = False
+            else:
+                continue
+            f_t, t_t = bool_switch_targets(t)
+            def straight_to_false(x):
+                for _ in range(6):
+                    if x in false_blocks:
+                        return True
+                    sc = [y for y in fa.succs(x) if not fa.blocks[y].get("cleanup")]
+                    if len(sc) != 1 or fa.term(x)["k"] not in ("goto", "drop"):
+                        return False
+                    x = sc[0]
+                return False
+            rej_true = straight_to_false(t_t)
+            rej_false = straight_to_false(f_t) and not rej_true
+            if not (rej_true or rej_false):
+                continue
+            opn = e[1] if rej_true else {"Lt": "Ge", "Le": "Gt", "Gt": "Le", "Ge": "Lt"}[e[1]]
+            # reject iff  L+lc OP R+rc ; want  count - id <= 0
+            if cnt_left:      # count + lc OP id + rc  ->  count - id OP rc - lc
+                kk = rc - lc if opn == "Le" else rc - lc - 1 if opn == "Lt" else None
+            else:             # id + lc OP count + rc  ->  count - id OP' lc - rc
+                kk = lc - rc if opn == "Ge" else lc - rc - 1 if opn == "Gt" else None
+            n += 1
+            ok = kk == 0
+            ctx.ob("VERIFYSTRICT", "%s|cmp|%d" % (p, k_), ok, fa.loc(b),
+                   "%s rejects an id when %s - id <= 0" % (p.split("::")[-2] + "::verify",
+                                                          "num_left/right") if ok else
+                   "%s rejects an id only when count - id <= %s (comparison %s %s %s): the first id "
+                   "outside the connector is accepted and indexes one past the tables during "
+                   "tokenization" % (p.split("::")[-2] + "::verify", kk, show(e[2]), e[1], show(e[3])))
+            k_ += 1
+    ctx.floor("VERIFYSTRICT", "id-range comparisons in verify()", n, 4)
